@@ -28,21 +28,23 @@ theorem deferred_once_in_order_after_output (reg : Registry) (fuel : Nat) (nodes
     ∃ evs, (write reg fuel nodes s).st.c.log = s.c.log ++ evs ++ (regTags evs).map Event.deferRan ∧
            evs.all isRegOrAcq = true ∧
            (write reg fuel nodes s).st.c.dfr = [] ∧
-           (write reg fuel nodes s).st.w = (writeTree reg fuel nodes s).st.w := by
-  obtain ⟨evs, hl, hd, _, ha⟩ := tree_only_registers reg fuel nodes s
-  unfold write Res.andThen at hok ⊢
-  cases he : (writeTree reg fuel nodes s).err with
+           (write reg fuel nodes s).st.w = (writeTree reg fuel nodes s.topStart).st.w := by
+  obtain ⟨evs, hl, hd, _, ha⟩ := tree_only_registers reg fuel nodes s.topStart
+  unfold write writeBody Res.andThen at hok ⊢
+  cases he : (writeTree reg fuel nodes s.topStart).err with
   | some e => rw [he] at hok; simp at hok; rw [he] at hok; cases hok
   | none =>
     simp only [he]
     refine ⟨evs, ?_, ha, rfl, rfl⟩
-    simp [ok, Ctx.runDeferred, hl, hd, h0]
+    have h0' : s.topStart.c.dfr = [] := h0
+    have hl' : (writeTree reg fuel nodes s.topStart).st.c.log = s.c.log ++ evs := hl
+    simp [ok, Ctx.runDeferred, hl', hd, h0']
 
 /-- A failed render runs none of them (documented behaviour) and keeps them pending. -/
 theorem failed_render_runs_none (reg : Registry) (fuel : Nat) (nodes : List Node) (s : St) (e : Err)
-    (herr : (writeTree reg fuel nodes s).err = some e) :
-    write reg fuel nodes s = writeTree reg fuel nodes s := by
-  unfold write Res.andThen; simp [herr]
+    (herr : (writeTree reg fuel nodes s.topStart).err = some e) :
+    write reg fuel nodes s = writeTree reg fuel nodes s.topStart := by
+  unfold write writeBody Res.andThen; simp [herr]
 
 /-- **Pooled objects**: none is released during a render; `Reset` releases every object acquired since the
     last reset exactly once, in acquisition order, and forgets them. -/
@@ -57,8 +59,8 @@ theorem pool_release_once (reg : Registry) (fuel : Nat) (nodes : List Node) (s :
 /-- A second render on the same context starts with an empty deferred list again, so nothing runs twice. -/
 theorem second_render_starts_empty (reg : Registry) (fuel : Nat) (nodes : List Node) (s : St)
     (hok : (write reg fuel nodes s).err = none) : (write reg fuel nodes s).st.c.dfr = [] := by
-  unfold write Res.andThen at hok ⊢
-  cases he : (writeTree reg fuel nodes s).err with
+  unfold write writeBody Res.andThen at hok ⊢
+  cases he : (writeTree reg fuel nodes s.topStart).err with
   | some e => rw [he] at hok; simp at hok; rw [he] at hok; cases hok
   | none => simp [he, ok, Ctx.runDeferred]
 
